@@ -154,3 +154,60 @@ def option_test_edges(body, dag, result_local):
                 if neg: truthy_has_value = not truthy_has_value
                 out.append((b, t[3], zero[0]) if truthy_has_value else (b, zero[0], t[3]))
     return out
+
+
+def flag_paths(body, dag, start, stop_blocks, cut):
+    """Path exploration that understands boolean flags: blocks reachable from `start` without entering `stop_blocks`, where
+      * an edge is pruned when it contradicts the constant last assigned to the tested flag on that path
+        (`let must = match .. { A => true, B => !f() }; if must {..}`: the false edge is infeasible after the `true` arm), and
+      * `cut(facts)` is asked for every remaining edge of a boolean switch with facts = [(expression, truth)] implied by taking it
+        (the tested value with its negations peeled, read through the flag when the switch tests a flag) and ends the path there when it answers True.
+    A flag is a bool local assigned as a whole in two or more places.  States are (block, last definition of each flag); back edges are followed (finite)."""
+    from mir import op_local
+    flags = {l for l, ds in body.defs.items() if len([d for d in ds if d[0] in body.reachable]) >= 2
+             and body.locals[l]["ty"] == "bool" and all(d[1] != "T" for d in ds)}
+    def peel(e):
+        neg = False
+        while isinstance(e, tuple) and e and e[0] == "un" and e[1] == "Not":
+            e = e[2]; neg = not neg
+        return e, neg
+    def constval(e):
+        if isinstance(e, tuple) and e and e[0] == "const":
+            if e[1] in (0, 1, True, False): return bool(e[1])
+            if str(e[1]) in ("true", "false"): return str(e[1]) == "true"
+        return None
+    seen = set(); reached = set()
+    st = [(start, ())]
+    while st:
+        b, envt = st.pop()
+        if (b, envt) in seen or b in stop_blocks: continue
+        seen.add((b, envt)); reached.add(b)
+        env = dict(envt)
+        copies = {}
+        for i, s_ in enumerate(body.stmts(b)):
+            if s_[0] != "A" or s_[1]["p"]: continue
+            l = s_[1]["l"]
+            if l in flags: env[l] = (b, i)
+            elif s_[2][0] == "Use" and op_local(s_[2][1]) in flags and not (s_[2][1][1].get("p") if s_[2][1][0] != "k" else True):
+                copies[l] = op_local(s_[2][1])
+        t = body.term(b)
+        nenv = tuple(sorted(env.items()))
+        if t[0] == "Switch" and t[5] == "bool":
+            l = op_local(t[1])
+            l = copies.get(l, l)
+            ft = [tg for (v, tg) in t[2] if v == 0]
+            edges = [(t[3], True)] + ([(ft[0], False)] if ft else [])
+            if l in flags and l in env:
+                db, di = env[l]
+                e, neg = peel(dag.rvalue((db, di, body.stmts(db)[di][2]), 0))
+            else:
+                e, neg = peel(dag.expr(t[1]))
+            cv = constval(e)
+            for (tg, val) in edges:
+                inner_truth = (not val) if neg else val
+                if cv is not None and cv != inner_truth: continue          # infeasible on this path
+                if cv is None and cut([(e, inner_truth)]): continue
+                st.append((tg, nenv))
+        else:
+            for s2 in body.succ(b): st.append((s2, nenv))
+    return reached
